@@ -354,8 +354,8 @@ theorem other_session_key_rejected {E : Env} {n : Node} {from_ : Addr} {s : Sess
 (`decKey ≠ encKey`: PASE and CASE sessions take them from different parts of one KDF output —
 I2R / R2I, C01 `keys_agree`, `Model/Case` `i2r := part 0`, `r2i := part 1`; `handle_pasepake3`
 splits `Ke`-derived material into `dec_key ‖ enc_key ‖ att_challenge`) never decodes a datagram it
-encoded itself: a reflected datagram is refused. The hypothesis is necessary — see the example
-`reflected_accepted_with_equal_keys`. -/
+encoded itself: a reflected datagram is refused. The hypothesis is necessary:
+`Ex2.reflected_accepted_with_equal_keys`. -/
 theorem opposite_direction_rejected {E : Env} {n : Node} {from_ : Addr} {r : Session} {h : PacketHdr}
     {payload ct : Bytes} (hr : r.isEncrypted = true) (hdir : r.decKey ≠ r.encKey)
     (hin : mkRec r h payload ct ∈ E.t) (hinj : CtInjective E.t) (hw : h.plain.WF) (hct : BytesOK ct)
@@ -765,7 +765,8 @@ example : ∀ hh p, decodeStage { t := [mkRec r h pay ct] } [r] a1 (r.encode h p
 /-- … and the hypothesis `decKey ≠ encKey` is necessary: a session with one key for both directions
 (and no peer node id, like a PASE session) decodes its own reflected datagram -/
 def rr : Session := { addr := a1, localNode := 0, peerNode := none, decKey := 2, encKey := 2, localSid := 20, peerSid := 20, mode := .pase }
-example : decodeStage { t := [mkRec rr h pay ct] } [rr] a1 (rr.encode h pay ct).1 = .decoded 0 h pay := by decide
+theorem reflected_accepted_with_equal_keys :
+    decodeStage { t := [mkRec rr h pay ct] } [rr] a1 (rr.encode h pay ct).1 = .decoded 0 h pay := by decide
 /-- `other_session_key_rejected` / `other_source_node_rejected`: another session of the table (other
 key), the right key but another expected peer node -/
 example : ∀ hh p, decodeStage E [{ r with decKey := 6 }] a1 (s.encode h pay ct).1 ≠ .decoded 0 hh p :=
